@@ -33,3 +33,14 @@ def cliMakeFileTypeMapSrc : Fc.PyLite.Fn := {
     ],
     .ret (.ext "FileTypeMap(mapping=)" [(.comp "v6" (.call .zip [(.var "v1"), (.var "v2")]) (.tuple [(.index (.var "v6") (.lit (.int 0))), (.ext "PatternFilter(patterns=)" [(.index (.var "v6") (.lit (.int 1)))])]) (.lit (.bool true)))])
   ] }
+
+/-- translated from the source text of `fieldcompare/_cli/_common.py: FileTypeMap.__init__` -/
+def cliFileTypeMapInitSrc : Fc.PyLite.Fn := {
+  name := "FileTypeMap.__init__"
+  params := ["v0"]
+  body := [
+    .assign "v1" (.or (.var "v0") (.tuple [])),
+    .assign "v2" (.lit (.dict [])),
+    .setIndex "v2" (.lit (.str "_mapping")) (.var "v1"),
+    .ret (.var "v2")
+  ] }
